@@ -135,7 +135,7 @@ class Runner:
         self.report(c, b, r, m, diffs, oracle_msgs)
 
     def report(self, c, b, r, m, diffs, oracle_msgs):
-        if len(self.violations) + len(self.known_hits) >= 25:
+        if len(self.violations) >= 25 or len(self.known_hits) >= 60:
             return
         # minimise
         prof = self.profile
